@@ -56,6 +56,7 @@ type run struct {
 	parked   []*gate
 	gseq     int
 	draining bool
+	free     bool // free-running mode: no gates, real time
 
 	barPtr      map[uintptr]string
 	bars        map[string]*barInfo
@@ -302,9 +303,17 @@ func (d *probeDecor) Format(s string) (string, int) {
 	return str, w
 }
 
+// user code takes its time: in free-running mode a listener is notified "slowly"
+func (d *probeDecor) slow() {
+	if d.r.free {
+		time.Sleep(300 * time.Microsecond)
+	}
+}
+
 type listenDecor struct{ *probeDecor }
 
 func (d listenDecor) OnShutdown() {
+	d.slow()
 	d.r.rec(Event{"ev": "onshutdown", "d": d.name, "b": d.bar})
 }
 
@@ -317,6 +326,7 @@ func (d ewmaDecor) EwmaUpdate(n int64, dur time.Duration) {
 type listenEwmaDecor struct{ *probeDecor }
 
 func (d listenEwmaDecor) OnShutdown() {
+	d.slow()
 	d.r.rec(Event{"ev": "onshutdown", "d": d.name, "b": d.bar})
 }
 func (d listenEwmaDecor) EwmaUpdate(n int64, dur time.Duration) {
@@ -1095,7 +1105,8 @@ func RunScenario(t *testing.T, sc *Scenario) (events []Event, fatal string) {
 			h := r.scheduler(t)
 			if h != "" {
 				gl := libGoroutines()
-				r.rec(Event{"ev": "hang", "kind": h, "pending": r.pendingCalls(), "parked": labels(r.snapshot()), "goroutines": gl})
+				r.rec(Event{"ev": "hang", "kind": h, "pending": r.pendingCalls(), "parked": labels(r.snapshot()), "goroutines": gl,
+					"infmt": strings.Contains(strings.Join(gl, " "), "WC.Format")})
 				r.rec(Event{"ev": "end"})
 				// the bubble cannot be left (a livelocked container keeps its fake clock
 				// running): hand the events to the worker, which writes them and exits
